@@ -102,9 +102,13 @@ def parse(schema: Dict[str, Any]) -> List[Element]:
         followed by each element in the top-level schema ``"definitions"``.
     """
     state = _ParseState()
+    # A boolean schema (`true` / `false`) has no definitions.
+    definitions = (
+        schema.get("definitions", {}) if isinstance(schema, dict) else {}
+    )
     return [parse_element(schema, state)] + [
         parse_element(definition, state)
-        for definition in schema.get("definitions", {}).values()
+        for definition in definitions.values()
         if isinstance(definition, (dict, bool, Element))
     ]
 
